@@ -30,6 +30,20 @@ func main() {
 	case "dev":
 		runDev(os.Args[2], os.Args[3:])
 	}
+	if f, ok := checks[os.Args[1]]; ok {
+		os.Exit(f())
+	}
 	fmt.Fprintln(os.Stderr, "unknown check", os.Args[1])
 	os.Exit(2)
+}
+
+var checks = map[string]func() int{
+	"C01": checkC01,
+	"C02": checkC02,
+	"C03": checkC03,
+	"C04": checkC04,
+	"C05": checkC05,
+	"C06": checkC06,
+	"C07": checkC07,
+	"C09": checkC09,
 }
